@@ -45,6 +45,7 @@ type Run struct {
 	mu      sync.Mutex
 	Viol    *Violation
 	Events  []string // bounded tail of the event log
+	Head    []string // its first lines
 	nEvents int
 	digest  hash.Hash
 	Stats   map[string]int // fault kinds fired, probes hit
@@ -60,6 +61,29 @@ type Run struct {
 	MaxSteps int
 	peers    []*Peer
 	simEnd   time.Duration
+	stallArmedAt map[int]int64 // link id -> bytes delivered on the reverse link when the stall was armed
+}
+
+// ArmStall arms a write-completion stall on link id and remembers how much
+// the opposite direction had delivered, so that "the reply arrived before the
+// write returned" can be recognised at release time.
+func (r *Run) ArmStall(id int) {
+	if r.stallArmedAt == nil {
+		r.stallArmedAt = map[int]int64{}
+	}
+	if _, pending := r.stallArmedAt[id]; !pending {
+		for _, ls := range r.Net.LinkStates() {
+			if ls.ID == id {
+				for _, rs := range r.Net.LinkStates() {
+					if rs.ID == ls.Reverse {
+						r.stallArmedAt[id] = rs.Delivered
+					}
+				}
+			}
+		}
+	}
+	r.Net.ArmStall(r.Net.Link(id))
+	r.Count("fault_write_stall_armed")
 }
 
 func (r *Run) registerPeer(p *Peer) {
@@ -94,11 +118,15 @@ func (r *Run) Logf(format string, args ...interface{}) {
 	line := fmt.Sprintf("%d @%s %s", r.Steps, r.SimNow(), s)
 	io.WriteString(r.digest, line)
 	io.WriteString(r.digest, "\n")
-	if len(r.Events) >= maxEventTail {
+	if len(r.Head) < 150 {
+		r.Head = append(r.Head, line)
+	} else if len(r.Events) >= maxEventTail {
 		copy(r.Events, r.Events[1:])
 		r.Events = r.Events[:maxEventTail-1]
 	}
-	r.Events = append(r.Events, line)
+	if len(r.Head) >= 150 && r.nEvents > 150 {
+		r.Events = append(r.Events, line)
+	}
 	r.mu.Unlock()
 }
 
